@@ -263,6 +263,11 @@ func (vm *VirtualMachine) Get(name string) (object.Object, error) {
 	if code == nil {
 		return nil, errors.New("no active code")
 	}
+	// Look the name up the way the compiler does. Scanning the global slots by
+	// name could find a variable of a nested block that shadows the global.
+	if g, ok := code.GlobalSymbol(name); ok {
+		return code.Globals[g.Index()], nil
+	}
 	for i := 0; i < code.GlobalsCount(); i++ {
 		if g := code.Global(i); g.Name() == name {
 			return code.Globals[g.Index()], nil
